@@ -306,3 +306,5 @@ _quick("C03", "C03_textexpire", "a text connection (real TextServerProtocol hand
 _quick("C17", "C17_relock_long", "a hold with Rcount 3 parked in the long-expiry table at once (persist-immediately flag with E = 100 s, or unlimited expiry), re-locked 1..2 times in the same second (deadline unchanged) or a second later, every level given back, wheel swept: exact LCount / LRCount in every reply, counters back, no live manager", ["-witness", "6"])
 
 _quick("C01", "C01_slowmap", "a held key whose manager lives in the ordinary key map (hold parked in the long-expiry table; or two keys sharing one of 4 fast slots, the first released and optionally swept); a second request with Count 0 or 1 and Timeout 0: refused, holds unchanged, the holder's unlock accepted", ["-witness", "3"], reach=["end", "downgraded", "collision"])
+
+_quick("C09", "C09_resync", "follower side of the resynchronisation handshake: the real ReplicationClient.InitSync against a scripted leader that answers ERR_NOT_FOUND to the follower's resume position, then the leader's position to the empty one, then the end marker of an empty transfer: the follower drops its stale hold, adopts the leader's position and consumes the transfer", ["-witness", "1"])
